@@ -25,10 +25,10 @@ PROP = "C08"
 INPUT_KEYS = {"k", "key", "val", "n"}
 INVS = ["TypeOK", "FoldLawHosted", "FoldLawClient", "UnlinkedHoldsNothing", "ImplsAgree", "SyncedExactlyAtSync",
         "SyncedSeesState", "QuietWhenNotSynced", "TerminatesOnUnlinked", "LegalIffGrammar"]
-PROPS = ["MRefinesP"]
+PROPS = ["MRefinesP", "EnvStepsInvisible"]
 IMPLS = ("client", "hosted")
 ALL_ACTIONS = ["OnLinked", "OnSynced", "OnUnlinked", "OnUpdate", "OnRemove", "OnClear", "OnTake", "OnDrop",
-               "OnValueEvent", "OnEventEvent", "LocalWrite", "AfterStop", "IllegalStep", "Chaos"]
+               "OnValueEvent", "OnEventEvent", "LocalWrite", "DropHandles", "OutFail", "AfterStop", "IllegalStep", "Chaos"]
 BOOLS = {True, False}
 KINDS = {"map", "value", "event"}
 TRACE_NK, TRACE_NV = 3, 3
@@ -39,32 +39,32 @@ def seq_configs(tier):
     """(a) exhaustive enumeration of input sequences by TLC (history in the state)."""
     if tier == "quick":
         return [dict(Kinds=KINDS, EwnsSet=BOOLS, TouSet=BOOLS, NK=2, NV=2, Counts={1}, LocalWrites=False,
-                     Illegal=False, MaxLen=4),
+                     Illegal=False, EnvFaults=True, MaxLen=4),
                 dict(Kinds={"value", "event"}, EwnsSet=BOOLS, TouSet=BOOLS, NK=1, NV=2, Counts=set(), LocalWrites=True,
-                     Illegal=False, MaxLen=6)]
+                     Illegal=False, EnvFaults=True, MaxLen=6)]
     return [dict(Kinds={"map"}, EwnsSet=BOOLS, TouSet=BOOLS, NK=2, NV=2, Counts={1}, LocalWrites=False,
-                 Illegal=False, MaxLen=5),
+                 Illegal=False, EnvFaults=True, MaxLen=5),
             dict(Kinds={"map"}, EwnsSet=BOOLS, TouSet={False}, NK=2, NV=2, Counts={1, 2}, LocalWrites=True,
-                 Illegal=False, MaxLen=4),
+                 Illegal=False, EnvFaults=True, MaxLen=4),
             dict(Kinds={"map"}, EwnsSet=BOOLS, TouSet={False}, NK=3, NV=1, Counts={0, 1, 2, 3}, LocalWrites=False,
-                 Illegal=False, MaxLen=5),
+                 Illegal=False, EnvFaults=True, MaxLen=5),
             dict(Kinds={"value", "event"}, EwnsSet=BOOLS, TouSet=BOOLS, NK=1, NV=2, Counts=set(), LocalWrites=True,
-                 Illegal=False, MaxLen=7)]
+                 Illegal=False, EnvFaults=True, MaxLen=7)]
 
 
 def graph_configs(tier):
     """(b) complete state graph (VIEW hides the history), every edge labelled with M's outputs."""
     if tier == "quick":
         return [dict(Kinds=KINDS, EwnsSet=BOOLS, TouSet=BOOLS, NK=3, NV=2, Counts={0, 1, 2, 3}, LocalWrites=False,
-                     Illegal=True, MaxLen=0),
+                     Illegal=True, EnvFaults=True, MaxLen=0),
                 dict(Kinds={"map", "value"}, EwnsSet=BOOLS, TouSet={False}, NK=2, NV=2, Counts={1}, LocalWrites=True,
-                     Illegal=False, MaxLen=0)]
+                     Illegal=False, EnvFaults=True, MaxLen=0)]
     return [dict(Kinds=KINDS, EwnsSet=BOOLS, TouSet=BOOLS, NK=3, NV=2, Counts={0, 1, 2, 3, 4}, LocalWrites=False,
-                 Illegal=True, MaxLen=0),
+                 Illegal=True, EnvFaults=True, MaxLen=0),
             dict(Kinds={"map", "value"}, EwnsSet=BOOLS, TouSet=BOOLS, NK=2, NV=2, Counts={0, 1, 2, 3}, LocalWrites=True,
-                 Illegal=True, MaxLen=0),
+                 Illegal=True, EnvFaults=True, MaxLen=0),
             dict(Kinds={"map"}, EwnsSet=BOOLS, TouSet={False}, NK=3, NV=3, Counts={1, 2}, LocalWrites=False,
-                 Illegal=False, MaxLen=0)]
+                 Illegal=False, EnvFaults=True, MaxLen=0)]
 
 
 # ----------------------------------------------------------------------------- cases
@@ -77,6 +77,8 @@ def make_cases(traces, tag, rng):
             continue
         cf = tr[0]["cf"]
         pool = rng.randrange(3)
+        # environment inputs (handles dropped, output failed) seen by the task on their own / together with the next input
+        env_settle = rng.random() < 0.5
         for impl in IMPLS:
             acts = []
             legal = True
@@ -90,7 +92,8 @@ def make_cases(traces, tag, rng):
                     act["legal"] = False
                 acts.append(act)
             cases.append({"id": "%s%d.%s" % (tag, n, impl[0]), "seq": "%s%d" % (tag, n),
-                          "cfg": {"kind": cf["kind"], "impl": impl, "ewns": cf["ewns"], "tou": cf["tou"], "pool": pool},
+                          "cfg": {"kind": cf["kind"], "impl": impl, "ewns": cf["ewns"], "tou": cf["tou"], "pool": pool,
+                                  "env_settle": env_settle},
                           "acts": acts})
     return cases
 
@@ -197,7 +200,7 @@ def generate(tier, wd, rng, stats):
         new = make_cases(traces, "s%d_" % ci, rng)
         cases += new
         core.log("[C08] sequences %s: %d states, %d sequences of length %d, depth %d (%.1fs)" % (
-            {x: k[x] for x in ("Kinds", "NK", "NV", "Counts", "LocalWrites")}, r.distinct, len(traces), k["MaxLen"], r.depth, r.wall))
+            {x: k[x] for x in ("Kinds", "NK", "NV", "Counts", "LocalWrites", "EnvFaults")}, r.distinct, len(traces), k["MaxLen"], r.depth, r.wall))
     for ci, k in enumerate(graph_configs(tier)):
         c = core.cfg(constants=k, invariants=INVS + ["InitDump"], properties=PROPS, view="View",
                      action_constraints=["EdgeDump"])
